@@ -612,6 +612,8 @@ CORPUS = {
                              (NS, [DSET, P(0), 0, enc_key('a'), V(2)]), (NS, [DDEL, P(0), 1, enc_key('a')]), (NS, [LSET, P(1), 0, V(2)]), (NS, [LDEL, P(1), 0]),
                              (NS, [OSET, P(2), enc_key('x'), V(2)]), (NS, [REBIND, P(0), [[[enc_key('a')], V(3)]]]), (NS, [REBIND, P(2), [[[enc_key('x')], V(3)]]]),
                              (sc(aw=[True]), [DSET, P(0), 0, enc_key('a'), V(4)]), (sc(aw=[False, None]), [DSET, P(0), 0, enc_key('a'), V(5)]), (NS, [DPOP, P(0), enc_key('a'), []])),
+  'dict-key-with-path-characters': case([{}], (NS, [DSET, P(0), 0, enc_key('a]'), V({'x': 1})]), (NS, [DSET, P(0), 0, enc_key('[q'), V(2)]),
+                                        (NS, [DSET, P(0, 'a]'), 0, enc_key('b.c'), V([1])]), (NS, [DDEL, P(0), 0, enc_key('a]')])),
   'missing-in-list': case([[1, 2, 3]], (sc(notify=[False]), [LSET, P(0), 1, V('MISSING')]), (NS, [CLONE, P(0), 0]), (NS, [LAPPEND, P(0), V(4)])),
 }
 
